@@ -140,13 +140,18 @@ def case(ctx, rng, fmt, w, h, d, payload, cls="random"):
         full = max(w, h).bit_length()
         mips = rng.choice([2, full, full, min(13, full + 1)])
         tail = rng.randbytes(min(len(payload) // 2 + 8, 4096))
-    hdr = tex.header(attr, fmt, w, h, d, mips=mips)
+    lod = (0, 0, 0)
+    if rng.random() < 0.3:
+        # header fields the decoder has no use for: any mip count (also 0 and values with a high byte), any LOD entries
+        mips = rng.choice([mips, 0, 1, 0x0100, 0x0200, 0x0D01, 0xFFFF, rng.getrandbits(16)])
+        lod = rng.choice([(0, 1, 2), (2, 2, 2), (0, 0, 0), tuple(rng.getrandbits(32) for _ in range(3)), (1, 1, 1)])
+    hdr = tex.header(attr, fmt, w, h, d, mips=mips, lod=lod)
     data = hdr + payload + tail
     f = ctx.write("t.tex", data)
     out = ctx.path("t.rgba")
     if os.path.exists(out):
         os.unlink(out)
-    ctx.case(digest(data), fmt != "bgra" or w * H >= 2, ["fmt:" + fmt, "depth:%d" % d, "mips:%s" % ("1" if mips == 1 else ">1"), "square:%d" % (w == h), "pixels:%s" % ("<=2^16" if w * H <= 65536 else "<=2^20" if w * H <= (1 << 20) else ">2^20"), "w%%4:%d" % (w % 4), "h%%4:%d" % (h % 4), cls, "3d:%d" % (1 if attr & tex.ATTR_3D else 0)],
+    ctx.case(digest(data), fmt != "bgra" or w * H >= 2, ["fmt:" + fmt, "depth:%d" % d, "mips:%s" % ("1" if mips == 1 else "0" if mips == 0 else ">1" if mips < 256 else "high-byte"), "lod-entries:%s" % ("zero" if lod == (0, 0, 0) else "other"), "square:%d" % (w == h), "pixels:%s" % ("<=2^16" if w * H <= 65536 else "<=2^20" if w * H <= (1 << 20) else ">2^20"), "w%%4:%d" % (w % 4), "h%%4:%d" % (h % 4), cls, "3d:%d" % (1 if attr & tex.ATTR_3D else 0)],
              sample=dict(format=fmt, width=w, height=h, depth=d, attribute=attr, payload_bytes=len(payload)))
     rec = ctx.call("tex.parse", f, out, input_bytes=len(data))
     ctx.check_mon(rec, len(data), files=[f])
